@@ -347,6 +347,8 @@ class World(object):
             req.fires.append((len(w.log), w.step, w.now(), "err", fl.value))
             w.ev(req.conn, "fire", rid=req.rid, kind=req.kind, out="err", val=type(fl.value).__name__,
                  exc=fl.value)
+            if w.armed and req.kind == "connect" and req.ret == "deferred" and w.ctx and w.ctx[0] == "rx" and not req.conn.lost:
+                w.react(req.conn, "connect_refused")
             if w.armed and req.kind in ("publish", "subscribe", "unsubscribe") and req.ret == "deferred" and len(w.ctx_stack) > 0 \
                     and not (w.ctx and w.ctx[0] == "api" and w.ctx[-1] == req.rid):
                 cur = w.cur.get(req.conn.a)
@@ -490,7 +492,16 @@ class World(object):
                     finally:
                         self.cfg["use_lost"] = saved
                     return
-                if action == "disconnect":
+                if action == "connect":
+                    saved = self.cfg.get("reconnect_refused")
+                    self.cfg["reconnect_refused"] = True
+                    if conn.phase == "connecting":
+                        self.set_phase(conn, "refused")
+                    try:
+                        self.op_connect(a, 0, 1, 0)
+                    finally:
+                        self.cfg["reconnect_refused"] = saved
+                elif action == "disconnect":
                     self.op_disconnect(a)
                 elif action == "publish":
                     self.op_publish(a, arg % 3)
